@@ -5,6 +5,7 @@ All statements are about `Mxl.createCache` / `Mxl.classify` / `Mxl.getInit`, the
 the driver executes.
 -/
 import MxlVerif.Lemmas.Args
+import MxlVerif.Lemmas.ClassifyComplete
 import MxlVerif.Model.Queries
 namespace Mxl.C13
 open Mxl
@@ -43,6 +44,15 @@ theorem C13_static_sound (c : Content) (order : List Name) (k : Name)
     classify_spec c order [] [] (omKeys c.pars) (fun a ha => Or.inl ha)
   rw [heq] at hk
   exact hg k hk
+
+/-- **A derived quantity is a derived parameter exactly when it depends, through any chain, only on
+    parameters.**  For the cache `_create_cache` builds (any declaration order), a sorted name is in
+    the parameter-name closure iff it is a parameter or satisfies `OnlyParams`. -/
+theorem C13_static_iff {c : Content} (hwf : WFd c) (hdist : DerivedDistinct c)
+    {cache : Cache} (h : createCache c = .ok cache) {k : Name} (hk : k ∈ cache.order) :
+    k ∈ (classify c cache.order [] [] (omKeys c.pars)).2.2 ↔
+      k ∈ omKeys c.pars ∨ OnlyParams c k :=
+  createCache_classify_exact hwf hdist h hk
 
 /-- **Dynamic classification is sound.**  A derived quantity put on the dynamic list has an
     argument that was not (yet) a parameter or derived parameter when it was visited; reactions
